@@ -17,7 +17,8 @@ def d2(ctx, prog, rule, modules):
     for f in prog.funcs:
         if f.name != '_compute' or f.cls is None or f.mod.name not in modules:
             continue
-        res, has_div = infnan.judge_compute(f)
+        from .. import inline
+        res, has_div = infnan.judge_compute(inline.inlined(prog, f, skip={'_compute_metric'}), prog)
         if not has_div:
             continue
         n += 1
@@ -62,24 +63,38 @@ def d1(ctx, prog):
     # passes the flattened data on
     ctx.check(stmts.index(reshape) < min(i for i, s in enumerate(stmts) if any(isinstance(c, ast.Call) and norm(c.func) in ('self._initialize', 'self._update', 'self._check') for c in ast.walk(s))),
               'C03-D1', f'{upd.key}::flatten first', 'data is flattened after it was handed to _initialize/_check/_update', 'flattened before use', upd.where(reshape))
-    # compute restores
-    rs = [n for n in ast.walk(comp.node) if isinstance(n, ast.Call) and isinstance(n.func, ast.Attribute) and n.func.attr == 'reshape']
+    # compute restores: every returned expression, with locals expanded, is either the bare _compute() result or that result
+    # reshaped to the remembered word dimensions + (-1,), the latter exactly under "more than one word dimension"
+    paths = astutil.return_paths(comp.node)
     key = f'{comp.key}::restore'
-    if len(rs) != 1:
-        ctx.undecided('C03-D1', key, f'{len(rs)} reshape calls in compute()', comp.where())
+    if not paths:
+        ctx.undecided('C03-D1', key, 'return paths of compute() not derivable', comp.where())
         return
-    a = rs[0].args[0] if len(rs[0].args) == 1 else None
     want = f'self.{marker}[1:]+(-1,)'
-    ctx.check(a is not None and norm(a).replace(' ', '') == want, 'C03-D1', key,
-              f'compute() reshapes the result to `{norm(a) if a is not None else "?"}`, not to {want}: the (...word dims..., sample) layout of the input is not restored',
-              f'result reshaped to {want}', comp.where(rs[0]))
-    ctx.check(c_order(rs[0]), 'C03-D1', key + ' order', 'the restoring reshape is not in C order', 'restored in C order', comp.where(rs[0]))
-    ctx.check(norm(rs[0].func.value) == 'self._compute()', 'C03-D1', key + ' operand', 'the reshape is not applied to the _compute() result', 'applied to self._compute()', comp.where(rs[0]))
-    pm = astutil.parents(comp.node)
-    g = astutil.guards(rs[0], pm)
-    cond_ok = any(pol and norm(t).replace(' ', '') == f'len(self.{marker})>2' for t, pol in g)
-    ctx.check(cond_ok, 'C03-D1', key + ' condition', 'the restore is not applied exactly when the data had more than one word dimension (len(origin shape) > 2)',
-              'restore applied when len(origin shape) > 2', comp.where(rs[0]))
+    n_restore = 0
+    for guards, e in paths:
+        if e is None:
+            ctx.fail('C03-D1', key + ' value', 'compute() can return nothing', comp.where())
+            continue
+        g = [(norm(t).replace(' ', ''), pol) for t, pol in guards]
+        several = any((t == f'len(self.{marker})>2' and pol) or (t in (f'len(self.{marker})<=2', f'len(self.{marker})<3') and not pol) or (t == f'len(self.{marker})>=3' and pol) for t, pol in g)
+        single = any((t == f'len(self.{marker})>2' and not pol) or (t in (f'len(self.{marker})<=2', f'len(self.{marker})<3') and pol) or (t == f'len(self.{marker})>=3' and not pol) for t, pol in g)
+        if isinstance(e, ast.Call) and isinstance(e.func, ast.Attribute) and e.func.attr == 'reshape':
+            n_restore += 1
+            a = e.args[0] if len(e.args) == 1 else None
+            ctx.check(a is not None and norm(a).replace(' ', '') == want, 'C03-D1', key,
+                      f'compute() reshapes the result to `{norm(a) if a is not None else "?"}`, not to {want}: the (...word dims..., sample) layout of the input is not restored',
+                      f'result reshaped to {want}', comp.where())
+            ctx.check(c_order(e), 'C03-D1', key + ' order', 'the restoring reshape is not in C order', 'restored in C order', comp.where())
+            ctx.check(norm(e.func.value) == 'self._compute()', 'C03-D1', key + ' operand', f'the reshape is applied to `{norm(e.func.value)[:50]}`, not to the _compute() result', 'applied to self._compute()', comp.where())
+            ctx.check(several and not single, 'C03-D1', key + ' condition', f'the restore is applied under {g}, not exactly when the data had more than one word dimension (len(origin shape) > 2)',
+                      'restore applied when len(origin shape) > 2', comp.where())
+        elif norm(e) == 'self._compute()':
+            ctx.check(single or not several, 'C03-D1', key + ' plain', f'the bare _compute() result is returned under {g}: data with several word dimensions would not get its layout back',
+                      'bare result returned when there is one word dimension', comp.where())
+        else:
+            ctx.undecided('C03-D1', key, f'compute() returns `{norm(e)[:70]}`: neither the _compute() result nor its restoring reshape', comp.where())
+    ctx.check(n_restore >= 1, 'C03-D1', key + ' present', 'compute() never restores the word dimensions of the data', 'a restoring path exists', comp.where())
 
 
 def run(ctx, prog):
